@@ -104,7 +104,16 @@ fn aggregate(contribs: &[&Contributor]) -> Result<TypeAggregator, String> {
 
 /// Observable summary of an aggregation result: import name -> structural description.
 fn summary(agg: &TypeAggregator) -> BTreeMap<String, String> {
-    agg.imports().map(|(n, k)| (n.to_string(), describe(agg.types(), k, 0))).collect()
+    let mut m: BTreeMap<String, String> = agg.imports().map(|(n, k)| (n.to_string(), describe(agg.types(), k, 0))).collect();
+    // interfaces reached through `use` are part of the result too
+    for (n, k) in agg.imports() {
+        if let ItemKind::Instance(id) = k {
+            for (un, u) in &agg.types()[id].uses {
+                m.insert(format!("{n} uses {un}"), format!("{:?} {}", agg.types()[u.interface].id, describe(agg.types(), ItemKind::Instance(u.interface), 0)));
+            }
+        }
+    }
+    m
 }
 
 fn permutations(n: usize, cap: usize) -> Vec<Vec<usize>> {
@@ -134,6 +143,10 @@ fn permutations(n: usize, cap: usize) -> Vec<Vec<usize>> {
 #[derive(Clone, Debug, Serialize, Deserialize)]
 pub struct Case {
     pub lib: LibSpec,
+    /// per contributor: which of its imports that another of its imports `use`s are *not* contributed
+    /// (as when that argument is passed explicitly and only the dependant stays implicit)
+    #[serde(default)]
+    pub withheld: Vec<u16>,
 }
 
 fn check(c: &Case) -> Outcome {
@@ -158,13 +171,37 @@ fn check_inner(c: &Case) -> Outcome {
     };
     // each contributor is decoded into its own collection
     let mut contribs = vec![];
+    let mut withheld_any = false;
     for comp in &comps {
         let mut types = Types::default();
         let pkg = match guarded(|| Package::from_bytes(&comp.name, None, comp.bytes.clone(), &mut types)) {
             Ok(Ok(p)) => p,
             _ => return Outcome::foreign("decode failed (C08's obligation)"),
         };
-        let imports: Vec<(String, ItemKind)> = types[pkg.ty()].imports.iter().map(|(n, k)| (n.clone(), *k)).collect();
+        let mut imports: Vec<(String, ItemKind)> = types[pkg.ty()].imports.iter().map(|(n, k)| (n.clone(), *k)).collect();
+        // interfaces that other imports of this contributor use
+        let mut used: BTreeSet<String> = BTreeSet::new();
+        for (_, k) in &imports {
+            if let ItemKind::Instance(id) = k {
+                for u in types[*id].uses.values() {
+                    if let Some(n) = &types[u.interface].id {
+                        used.insert(n.clone());
+                    }
+                }
+            }
+        }
+        let mask = c.withheld.get(contribs.len()).copied().unwrap_or(0);
+        let mut bit = 0;
+        imports.retain(|(n, _)| {
+            if used.contains(n) {
+                bit += 1;
+                if mask & (1 << (bit - 1)) != 0 {
+                    withheld_any = true;
+                    return false;
+                }
+            }
+            true
+        });
         contribs.push(Contributor { name: comp.name.clone(), types, imports });
     }
     contribs.retain(|c| !c.imports.is_empty());
@@ -208,6 +245,9 @@ fn check_inner(c: &Case) -> Outcome {
     }
     if predicted_conflict {
         o = o.label("predicted-conflict");
+    }
+    if withheld_any {
+        o = o.label("used-interface-not-contributed-directly");
     }
     let perms = permutations(refs.len(), 120);
     let mut base: Option<Result<BTreeMap<String, String>, String>> = None;
@@ -294,6 +334,24 @@ fn check_inner(c: &Case) -> Outcome {
                     }
                     _ => return o.with_verdict(Verdict::Fail { sig: "C09/merged-kind-differs".into(), msg: format!("`{canon}`: kind class differs from the requirement of {}", c.name) }),
                 }
+                // what the requirement reaches through `use` must be covered as well
+                if let (ItemKind::Instance(need_id), ItemKind::Instance(have_id)) = (*k, merged) {
+                    for (un, u) in &c.types[need_id].uses {
+                        comparisons += 1;
+                        let need = export_names(&c.types, ItemKind::Instance(u.interface)).unwrap_or_default();
+                        let Some(hu) = agg.types()[have_id].uses.get(un) else {
+                            return o.with_verdict(Verdict::Fail { sig: "C09/merged-loses-use".into(), msg: format!("`{canon}` merged for `{n}` of {} no longer uses `{un}`", c.name) });
+                        };
+                        let have = export_names(agg.types(), ItemKind::Instance(hu.interface)).unwrap_or_default();
+                        for (en, ed) in &need {
+                            match have.get(en) {
+                                None => return o.with_verdict(Verdict::Fail { sig: "C09/used-interface-lacks-export".into(), msg: format!("`{canon}` (for `{n}` of {}) uses `{un}` from {:?}, which lacks export `{en}` of the contributor's {:?}", c.name, agg.types()[hu.interface].id, c.types[u.interface].id) }),
+                                Some(hd) if !instance_desc_covers(hd, ed) => return o.with_verdict(Verdict::Fail { sig: "C09/used-interface-export-differs".into(), msg: format!("`{canon}` uses `{un}`: export `{en}` is {hd}, the contributor {} requires {ed}", c.name) }),
+                                _ => {}
+                            }
+                        }
+                    }
+                }
                 // wac's own checker must agree that the merged type satisfies the contributor
                 let mut cache = Default::default();
                 if let Err(e) = SubtypeChecker::new(&mut cache).is_subtype(merged, agg.types(), *k, &c.types) {
@@ -346,9 +404,9 @@ pub fn run(tier: Tier, seed: u64, replay: Option<&std::path::Path>) -> i32 {
         run.replay_case::<Case, _>(p, check);
         return run.finish();
     }
-    let n = tier.pick(5_000, 80_000);
-    run.explore(1, 16, n / 16, || libspec_strategy(6).prop_map(|lib| Case { lib }), check);
-    for l in ["versions-on-one-track", "three-versions-on-one-track", "predicted-conflict"] {
+    let n = tier.pick(16_000, 200_000);
+    run.explore(1, 16, n / 16, || (libspec_strategy(6), proptest::collection::vec(prop_oneof![1 => Just(0u16), 2 => any::<u16>()], 2..6)).prop_map(|(lib, withheld)| Case { lib, withheld }), check);
+    for l in ["used-interface-not-contributed-directly", "versions-on-one-track", "three-versions-on-one-track", "predicted-conflict"] {
         run.floor(l, 10);
     }
     run.finish()
